@@ -273,7 +273,7 @@ func (cr *chainRun) run(nBlocks int) {
 
 	// jsonLine records the round trip of the update object itself (public view + bytes)
 	jsonLine := func(typ string, orig, back accessors, js []byte, err error, remarshal func() ([]byte, error)) {
-		line := map[string]any{"ev": "jsonrt", "type": typ, "mok": js != nil, "uok": err == nil, "eq": false, "same": false, "rules": []string{}, "n": len(js), "diff": ""}
+		line := map[string]any{"ev": "jsonrt", "type": typ, "mok": js != nil, "uok": err == nil, "eq": false, "same": false, "rules": []string{}, "n": len(js), "diff": "", "fam": "none", "bin": "n/a"}
 		if js != nil && err == nil {
 			ok, rules, diff := equalUnder(reflect.ValueOf(orig), reflect.ValueOf(back))
 			js2, err2 := remarshal()
